@@ -77,3 +77,36 @@ func TestC02Export(t *testing.T) {
 	sx, err := ExportProgram(prog)
 	fmt.Println(sx.String(), err)
 }
+
+// TestC02Verdict prints, for every program of $DBG_SRC (separated by a line "===="), the parser's verdict,
+// Static.wt's verdict on the exported tree and the evaluator's outcome.
+func TestC02Verdict(t *testing.T) {
+	if os.Getenv("DBG_SRC") == "" {
+		t.Skip("DBG_SRC not set")
+	}
+	b, _ := os.ReadFile(os.Getenv("DBG_SRC"))
+	model, err := StartModel("static")
+	if err != nil {
+		t.Fatal(err)
+	}
+	defer model.Close()
+	for _, src := range strings.Split(string(b), "\n====\n") {
+		fmt.Printf("---- %q\n", src)
+		prog, perr := safeParse(src)
+		if perr != nil {
+			fmt.Println("  parser:", strings.ReplaceAll(perr.Error(), "\n", " | "))
+			continue
+		}
+		sx, err := ExportProgram(prog)
+		if err != nil {
+			fmt.Println("  unexportable:", err)
+			continue
+		}
+		if os.Getenv("DBG_TREE") != "" {
+			fmt.Println("  tree:", sx.String())
+		}
+		ans, err := model.Ask(sx.String())
+		out := RunEvy(src, RunOpts{YieldBudget: 200000, NoSummary: true, Input: []string{"1", "abc"}})
+		fmt.Printf("  parser: accepted; Static: %s %v; run: %s %q %s%s\n", ans, err, out.Class, out.Prints, out.GoPanic, out.ErrText)
+	}
+}
